@@ -185,9 +185,11 @@ def run_node_balance(interp, c):
     PX = lambda mm: T.eq(S * psum(shareX, mm), X * psum(beta, mm))
     lemma(c, "node balance, induction base", PX(0))
     lemma(c, "node balance, induction step", T.implies(PX(m), PX(T.add(m, 1))))
-    P = lambda mm: T.eq(S * psum(share, mm), Q * psum(beta, mm))
-    c.assume(P(kout))  # instance of the induction conclusion at m = n_out, X = node inflow
-    lemma(c, "flows entering the leaving links sum to the flows of the entering links plus the origin flow", T.eq(psum(share, kout), Q))
+    # conclusion for an arbitrary total inflow X; the node's own inflow (entering last-segment flows +
+    # origin flow) is an instance (X := node_inflow), and the proved postcondition of
+    # Node.get_upstream_speed_and_flow is exactly share_k with that X (next obligation)
+    lemma(c, "flows entering the leaving links sum to the node's total inflow (entering links plus origin)",
+          T.implies(PX(kout), T.eq(psum(shareX, kout), X)))
     # the same through the proved postcondition term of Node.get_upstream_speed_and_flow
     k = c.fresh_index(kout, "k")
     net.out_edge_facts(n, k)
